@@ -323,7 +323,7 @@ func foldPackage(repo string, pk *packages.Package, inv map[string]bool, res *Re
 				continue
 			}
 		}
-		if len(sites[c]) > 3 {
+		if len(sites[c]) > 4 {
 			keptWhy[c.key] = fmt.Sprintf("%d call sites: treated as a primitive of the package", len(sites[c]))
 			continue
 		}
@@ -518,7 +518,58 @@ func classify(stack []ast.Node, id *ast.Ident, info *types.Info) *site {
 		}
 		return false
 	}
+	simple := func(e ast.Expr) bool {
+		ok := true
+		ast.Inspect(e, func(n ast.Node) bool {
+			switch n.(type) {
+			case nil, *ast.Ident, *ast.BasicLit, *ast.SelectorExpr, *ast.ParenExpr, *ast.StarExpr:
+				return true
+			}
+			ok = false
+			return false
+		})
+		return ok
+	}
 	switch p := parent.(type) {
+	case *ast.CallExpr:
+		// an argument of another call whose earlier operands are plain names and literals: the fold is hoisted in
+		// front of the statement (nothing that is evaluated before it can observe the difference)
+		isArg := false
+		for k, a := range p.Args {
+			if a == ast.Expr(call) {
+				isArg = true
+				break
+			}
+			if !simple(p.Args[k]) {
+				return nil
+			}
+		}
+		if !isArg || !simple(p.Fun) || i-2 < 0 {
+			return nil
+		}
+		switch st := stack[i-2].(type) {
+		case *ast.ExprStmt:
+			if inBlock(st, i-2) {
+				return &site{call: call, stmt: st, kind: "nested", encl: encl}
+			}
+		case *ast.ReturnStmt:
+			if len(st.Results) == 1 && inBlock(st, i-2) {
+				return &site{call: call, stmt: st, kind: "nested", encl: encl}
+			}
+		case *ast.AssignStmt:
+			if len(st.Rhs) == 1 && st.Rhs[0] == ast.Expr(p) && inBlock(st, i-2) {
+				allSimple := true
+				for _, l := range st.Lhs {
+					if !simple(l) {
+						allSimple = false
+					}
+				}
+				if allSimple {
+					return &site{call: call, stmt: st, kind: "nested", encl: encl}
+				}
+			}
+		}
+		return nil
 	case *ast.ExprStmt:
 		if inBlock(p, i-1) {
 			return &site{call: call, stmt: p, kind: "expr", encl: encl}
@@ -946,6 +997,30 @@ func render1(fset *token.FileSet, pk *packages.Package, s *site) (string, string
 		line(callerName, nextLine)
 		_ = fallsOff
 		return b.String(), ""
+	case "nested":
+		if nres != 1 {
+			return "", "result count"
+		}
+		{
+			t := tag + "_v"
+			body := bodyWith(func(r *ast.ReturnStmt) string {
+				return "{ " + t + " = " + retValues(r) + "; break " + tag + " }"
+			})
+			hdr := b.String()
+			b.Reset()
+			b.WriteString("var " + t + " " + resTypes[0] + "; ")
+			b.WriteString("{ " + hdr + tag + ": switch { default: { " + params() + namedDecl)
+			line(calleeName, calleeLine)
+			b.WriteString(body)
+			b.WriteString("\n} } }; ")
+			so := fset.PositionFor(s.stmt.Pos(), false).Offset
+			cs, ce := fset.PositionFor(s.call.Pos(), false).Offset, fset.PositionFor(s.call.End(), false).Offset
+			eo := fset.PositionFor(s.stmt.End(), false).Offset
+			line(callerName, fset.Position(s.stmt.Pos()).Line)
+			b.WriteString(string(callerSrc[so:cs]) + t + string(callerSrc[ce:eo]))
+			line(callerName, nextLine)
+			return b.String(), ""
+		}
 	case "assign":
 		as := s.stmt.(*ast.AssignStmt)
 		if nres == 0 || len(as.Lhs) != nres {
